@@ -291,7 +291,7 @@ Proof.
   unfold same_at. destruct o as [k nk|k|k q ok|]; simpl; intros Hc; try discriminate;
     assert (Hne : s <> k) by lia.
   - destruct nk; [|auto]. destruct (new_log (c_size c)); [|auto].
-    cbn [fst snd g_logs g_cnts g_keys]. rewrite upd_other, has_ins by auto.
+    cbn [fst snd g_logs g_cnts g_keys]. rewrite !upd_other, has_ins by auto.
     replace (s =? k) with false by lia. auto.
   - cbn [fst snd g_logs g_cnts g_keys]. rewrite !upd_other, has_del by auto.
     replace (s =? k) with false by lia. auto.
